@@ -494,7 +494,7 @@ func genC08() *rapid.Generator[*Spec] {
 			return s
 		}
 		in := &s.Injectors[k]
-		kind := x.pick([]string{"func", "value", "ivalue", "bind", "bind", "fields", "set", "inline", "inline2", "shared", "shared", "nest-control", "struct", "twinfunc", "twinfunc"}, "extra")
+		kind := x.pick([]string{"func", "value", "ivalue", "bind", "bind", "fields", "set", "inline", "inline2", "shared", "shared", "nest-control", "struct", "twinfunc", "twinfunc", "emptyset", "emptyinline", "emptynested"}, "extra")
 		noShuffle := false
 		freshT := func() *Type { return Named(addFreshStruct(s, 0, x.fresh("U"))) }
 		switch kind {
@@ -599,6 +599,16 @@ func genC08() *rapid.Generator[*Spec] {
 			it := addItem(s, Item{Kind: "func", Pkg: 0, Name: x.fresh("ProvideU"), Out: freshT()})
 			s.Sets = append(s.Sets, Set{Pkg: 0, Name: x.fresh("USet"), Args: []Ref{RItem(it)}, AliasOf: -1})
 			in.Args = append(in.Args, RSet(len(s.Sets)-1))
+		case "emptyset":
+			// a set that provides nothing at all contributes nothing either
+			s.Sets = append(s.Sets, Set{Pkg: 0, Name: x.fresh("ESet"), Args: []Ref{}, AliasOf: -1})
+			in.Args = append(in.Args, RSet(len(s.Sets)-1))
+		case "emptyinline":
+			in.Args = append(in.Args, RInline(nil))
+		case "emptynested":
+			s.Sets = append(s.Sets, Set{Pkg: 0, Name: x.fresh("ESet"), Args: []Ref{}, AliasOf: -1})
+			s.Sets = append(s.Sets, Set{Pkg: 0, Name: x.fresh("ENest"), Args: []Ref{RSet(len(s.Sets) - 1), RInline(nil)}, AliasOf: -1})
+			in.Args = append(in.Args, RSet(len(s.Sets)-1))
 		case "inline":
 			it := addItem(s, Item{Kind: "func", Pkg: 0, Name: x.fresh("ProvideU"), Out: freshT()})
 			in.Args = append(in.Args, RInline([]Ref{RItem(it)}))
@@ -692,6 +702,21 @@ func resultAtom(x *mutCtx, name string, valueT *Type) *Type {
 		return decl(Decl{Pkg: 0, Name: "ErrNamed", Form: "iface", IMeth: []string{"Error0"}})
 	case "int":
 		return Basic("int")
+	case "implerr", "implerrval":
+		// concrete types that implement error (assignable to it, not identical)
+		last := len(s.Pkgs) - 1
+		if s.PkgExtra == nil {
+			s.PkgExtra = map[int]string{}
+		}
+		if !strings.Contains(s.PkgExtra[last], "func (*ErrImpl) Error()") {
+			s.PkgExtra[last] += "func (*ErrImpl) Error() string { return \"impl\" }\n\nfunc (ErrVal) Error() string { return \"val\" }\n"
+		}
+		impl := decl(Decl{Pkg: 0, Name: "ErrImpl", Form: "struct", Fields: []SField{{Name: "Tok", T: Basic("int")}}})
+		val := decl(Decl{Pkg: 0, Name: "ErrVal", Form: "def", Under: Basic("int")})
+		if name == "implerr" {
+			return Ptr(impl)
+		}
+		return val
 	}
 	return valueT
 }
@@ -753,7 +778,7 @@ func genC09() *rapid.Generator[*Spec] {
 				if i == 0 {
 					out[i] = x.pick([]string{"T", "T", "*T", "error", "func()", "int"}, "atom0")
 				} else {
-					out[i] = x.pick([]string{"error", "error", "func()", "func()", "aliasfunc", "namedfunc", "otherfunc", "aliaserr", "namederr", "T", "int"}, "atom")
+					out[i] = x.pick([]string{"error", "error", "func()", "func()", "aliasfunc", "namedfunc", "otherfunc", "aliaserr", "namederr", "T", "int", "implerr", "implerr", "implerrval"}, "atom")
 				}
 			}
 			return out
